@@ -14,13 +14,20 @@ histories for a failing input and reports the violation either way).
 namespace SaoVerif
 
 theorem C06_decision_skeleton_as_modelled :
-    Generated.Skel.x_market_keeper_pool_management_go = Expected.Skel.x_market_keeper_pool_management_go ∧
-    Generated.Skel.x_node_keeper_shard_pledge_management_go = Expected.Skel.x_node_keeper_shard_pledge_management_go ∧
-    Generated.Skel.x_node_keeper_msg_server_claim_reward_go = Expected.Skel.x_node_keeper_msg_server_claim_reward_go ∧
-    Generated.Skel.x_sao_keeper_msg_server_renew_go = Expected.Skel.x_sao_keeper_msg_server_renew_go ∧
-    Generated.Skel.x_did_keeper_did_management_go = Expected.Skel.x_did_keeper_did_management_go ∧
-    Generated.Skel.x_order_keeper_order_management_go = Expected.Skel.x_order_keeper_order_management_go ∧
-    Generated.Skel.app_app_go = Expected.Skel.app_app_go := by
+    [Generated.Skel.x_market_keeper_pool_management_go,
+     Generated.Skel.x_node_keeper_shard_pledge_management_go,
+     Generated.Skel.x_node_keeper_msg_server_claim_reward_go,
+     Generated.Skel.x_sao_keeper_msg_server_renew_go,
+     Generated.Skel.x_did_keeper_did_management_go,
+     Generated.Skel.x_order_keeper_order_management_go,
+     Generated.Skel.app_app_go] =
+    [Expected.Skel.x_market_keeper_pool_management_go,
+     Expected.Skel.x_node_keeper_shard_pledge_management_go,
+     Expected.Skel.x_node_keeper_msg_server_claim_reward_go,
+     Expected.Skel.x_sao_keeper_msg_server_renew_go,
+     Expected.Skel.x_did_keeper_did_management_go,
+     Expected.Skel.x_order_keeper_order_management_go,
+     Expected.Skel.app_app_go] := by
   decide +kernel
 
 end SaoVerif
